@@ -1,7 +1,8 @@
 (* C13 — property theorems only: each closed by [exact] of a lemma proved elsewhere. *)
 From Helm Require Props.Decisions. (* data conditions of the release operations tied to /repo by the translator: notes/DEC.md *)
 From Coq Require Import List String Bool ZArith.
-From Helm Require Import Values.Tree Values.Merge Values.Coalesce Values.Reuse Values.ReuseProofs Values.ReuseChain.
+From Helm Require Import Values.Tree Values.Merge Values.Coalesce Values.Reuse Values.ReuseProofs Values.ReuseChain Values.ReuseMode Values.ReuseTableProofs.
+From Helm Require Gen.C13Reuse.
 Import ListNotations.
 Local Open Scope string_scope.
 
@@ -269,3 +270,54 @@ Example C13_rollback_then_upgrade_nonvacuous :
           = Some [("t", VMap [("y", VStr "n"); ("x", VStr "u1")]); ("a", VNum 10%Z); ("only1", VStr "d1")].
 Proof. exact ex_rollback_then_upgrade. Qed.
 Print Assumptions C13_rollback_then_upgrade_nonvacuous.
+
+(* ---- round 4: the flags, all eight combinations; the condition chain of reuseValues tied to the source ---- *)
+
+(* which flag decides, for each of the eight combinations (ResetValues beats ReuseValues beats
+   ResetThenReuseValues) ... *)
+Theorem C13_flag_combinations : forall a b c : bool,
+  In (a, b, c, reuse_mode (mkFlags a b c))
+     [ (false, false, false, MPlain); (false, false, true, MResetThenReuse);
+       (false, true, false, MReuse);  (false, true, true, MReuse);
+       (true, false, false, MReset);  (true, false, true, MReset);
+       (true, true, false, MReset);   (true, true, true, MReset) ].
+Proof. exact reuse_mode_cases. Qed.
+Print Assumptions C13_flag_combinations.
+
+(* ... and the model's reuseValues does, for every input, what that mode says *)
+Theorem C13_mode_decides : forall (f : uflags) (ch : chart) (cur : revision) (newv : vmap),
+  reuse_values_fn f ch cur newv =
+  match reuse_mode f with
+  | MReset => Some (ch, newv)
+  | MReuse =>
+      match coalesce_values_root (rchart cur) (rconfig cur) with
+      | None => None
+      | Some oldvals => Some (set_values ch oldvals, coalesce_tables false newv (rconfig cur))
+      end
+  | MResetThenReuse => Some (ch, coalesce_tables false newv (rconfig cur))
+  | MPlain => if is_empty newv && negb (is_empty (rconfig cur)) then Some (ch, rconfig cur) else Some (ch, newv)
+  end.
+Proof. exact reuse_values_fn_by_mode_explicit. Qed.
+Print Assumptions C13_mode_decides.
+
+(* The translator table Gen/C13Reuse.v — the paths through pkg/action/upgrade.go reuseValues as
+   read from the source on this run — interpreted on every environment (the three flags; new
+   values nil / empty / non-empty; deployed values nil / empty / non-empty): exactly one path is
+   taken, and it returns what the model decides: the caller's map, current.Config, or the overlay
+   onto a COPY of the caller's map, with or without the old defaults. *)
+Theorem C13_reuse_table : forall e : renv,
+  decide e Gen.C13Reuse.reuse_rows = Some
+    (if e_reset e then mkAct RNew false
+     else if e_reuse e then mkAct ROverlayCopy true
+     else if e_rtr e then mkAct ROverlayCopy false
+     else if negb (mstate_eqb (e_new e) MNonEmpty) && mstate_eqb (e_cur e) MNonEmpty then mkAct RCur false
+     else mkAct RNew false).
+Proof. exact reuse_rows_decide_explicit. Qed.
+Print Assumptions C13_reuse_table.
+
+(* hence the table applied to the model's data is the model's reuseValues, for all inputs *)
+Theorem C13_reuse_table_is_model : forall (f : uflags) (ch : chart) (cur : revision) (newv : vmap),
+  option_map (fun a => apply_action a ch cur newv) (decide (env_of f newv (rconfig cur)) Gen.C13Reuse.reuse_rows)
+  = Some (reuse_values_fn f ch cur newv).
+Proof. exact reuse_rows_are_model. Qed.
+Print Assumptions C13_reuse_table_is_model.
